@@ -248,7 +248,7 @@ class Lib:
     # ---- names
     def global_name(self, ex, name, st):
         if name in ("UndirectedGraph", "Independencies", "IndependenceAssertion", "DAG", "PDAG", "BayesianNetwork", "Graph",
-                    "DiGraph", "MarkovNetwork", "DynamicNode", "DynamicBayesianNetwork", "StructureScore"):
+                    "DiGraph", "MarkovNetwork", "DynamicNode", "DynamicBayesianNetwork", "StructureScore", "TabularCPD", "ContinuousFactor"):
             return ClassV(name)
         if name == "logger":
             return ModuleV("logger")
@@ -287,7 +287,40 @@ class Lib:
     def obj_equal(self, ex, a, b, st):
         return None
 
+    # ---- CPD objects (opaque references with a few modelled attributes; used by BayesianNetwork.check_model)
+    def isinstance_hook(self, ex, v, tnode, st):
+        if isinstance(v, Scalar) and v.z.sort() == Opaque and v.pytype == "CPD":
+            names = [t.attr if isinstance(t, ast.Attribute) else getattr(t, "id", "?") for t in (tnode.elts if isinstance(tnode, ast.Tuple) else [tnode])]
+            return z3.Function("cpd_isinstance_" + "_".join(sorted(names)), Opaque, B)(v.z)
+        return None
+
+    def cpd_attr(self, ex, v, attr, st):
+        ref = v.z
+        if attr in ("variables", "cardinality"):
+            es = Atom if attr == "variables" else I
+            mem = z3.Function(f"cpd_{attr}", Opaque, set_sort(es))(ref)
+            AT = z3.Function(f"cpd_{attr}_at", Opaque, I, es)
+            IDX = z3.Function(f"cpd_{attr}_idx", Opaque, es, I)
+            n = z3.Function(f"cpd_{attr}_len", Opaque, I)(ref)
+            c = Coll("list", es, mem, nodup=False)
+            c.len_z = n
+            c.seq = ((lambda i, AT=AT, ref=ref: AT(ref, i)), (lambda x, IDX=IDX, ref=ref: IDX(ref, x)))
+            i_, x_ = fresh("i", I), fresh("x", es)
+            st.assume(z3.And(n >= 0, z3.ForAll([i_], z3.Implies(z3.And(0 <= i_, i_ < n), mem[AT(ref, i_)])),
+                             z3.ForAll([x_], z3.Implies(mem[x_], z3.And(0 <= IDX(ref, x_), IDX(ref, x_) < n, AT(ref, IDX(ref, x_)) == x_)))))
+            ex.assumed.add("CPD objects are opaque references; .variables / .cardinality are lists (sequence view), .state_names a dict, "
+                           "get_evidence() / is_valid_cpd() pure functions of the object")
+            return c
+        if attr == "state_names":
+            return DictV(Atom, "scalar", z3.Function("cpd_state_names_dom", Opaque, set_sort(Atom))(ref),
+                         z3.Function("cpd_state_names_val", Opaque, z3.ArraySort(Atom, Opaque))(ref), vsort=Opaque)
+        return None
+
     def scalar_attr(self, ex, v, attr, st):
+        if v.z.sort() == Opaque and v.pytype == "CPD":
+            r = self.cpd_attr(ex, v, attr, st)
+            if r is not None:
+                return r
         if v.z.sort() == IA and attr in ("event1", "event2", "event3"):
             return Coll("frozenset", Atom, getattr(IA, attr)(v.z))
         if v.z.sort() == IA and attr == "all_vars":
@@ -607,6 +640,17 @@ class Lib:
 
     # ---- methods
     def call_method(self, ex, cname, recv, name, args, kwargs, st, node):
+        if isinstance(recv, Obj) and recv.fields.get("__cpds__") and name == "get_cpds" and (len(args) == 1 or set(kwargs) == {"node"}):
+            # the CPD attached to a node, or None: a pure function of the node for the (unchanged) model
+            n = z3_of(args[0] if args else kwargs["node"])
+            r = Scalar(z3.Function("cpd_of", Atom, Opaque)(n), "CPD")
+            r.none_if = z3.Not(z3.Function("has_cpd", Atom, B)(n))
+            return r
+        if isinstance(recv, Scalar) and recv.z.sort() == Opaque and recv.pytype == "CPD":
+            if name == "get_evidence" and not args:
+                return Coll("list", Atom, z3.Function("cpd_evidence", Opaque, set_sort(Atom))(recv.z))
+            if name == "is_valid_cpd" and not args:
+                return Scalar(z3.Function("cpd_is_valid", Opaque, B)(recv.z))
         if isinstance(recv, Obj) and recv.cls.startswith("super:"):
             target = recv.target
             after = recv.cls[6:]
